@@ -215,6 +215,36 @@ func checkC14(rc *Run) error {
 	}
 	rc.Sample(M{"format": runs[0].c.F, "direction": runs[0].dir, "argv": runs[0].args, "stdin": runs[0].stdin, "stdout": runs[0].out})
 	rc.Sample(M{"format": runs[len(runs)/2].c.F, "direction": runs[len(runs)/2].dir, "argv": runs[len(runs)/2].args, "stdin": runs[len(runs)/2].stdin, "stdout": runs[len(runs)/2].out})
+	// ---- texts the case tables of Gen_Codecs do not reach (a spelling of the format the writers of Codecs.tla never choose):
+	// decode(text) must be the value the text denotes, and encode(decode(text)) must denote it again
+	type extraCase struct {
+		name, stdin, want string
+		args, args2       []string // args2: a second run on the output of the first
+	}
+	extraDir := filepath.Join(rc.Out, "extra")
+	os.MkdirAll(extraDir, 0o755)
+	for _, ec := range []extraCase{
+		{"props:continuation-with-crlf", "k1=b\\\r\n  c\r\nk2=e\r\n", `{"k1":"bc","k2":"e"}`, []string{"-p=props", "-o=json", "-I0", "."}, nil},
+		{"props:continuation-with-lf", "k1=b\\\n  c\nk2=e\n", `{"k1":"bc","k2":"e"}`, []string{"-p=props", "-o=json", "-I0", "."}, nil},
+		// a block scalar is written as a Lua long string: the closing bracket level must not occur in (or at the end of) the text
+		{"lua:long-string-ending-in-bracket", "k1: |-\n  x]\n", `{"k1":"x]"}`, []string{"-o=lua", "."}, []string{"-p=lua", "-o=json", "-I0", "."}},
+		{"lua:long-string-holding-brackets", "k1: |-\n  a]]b]=]c\n  d]\n", `{"k1":"a]]b]=]c\nd]"}`, []string{"-o=lua", "."}, []string{"-p=lua", "-o=json", "-I0", "."}},
+		{"lua:long-string-plain", "k1: |-\n  two\n  lines\n", `{"k1":"two\nlines"}`, []string{"-o=lua", "."}, []string{"-p=lua", "-o=json", "-I0", "."}},
+		// mixed content: text next to child elements is kept by decode AND by encode
+		// (the decoded value does not say where between the children a text stood: the texts, concatenated, and the children are what can come back)
+		{"xml:mixed-content-round-trip", "<r><p>Hello <b>world</b>!</p></r>\n", `["Hello!","world"]`, []string{"-p=xml", "-o=json", "-I0", `to_xml | from_xml | [(.r.p["+content"] | [.] | flatten | join("")), .r.p.b]`}, nil},
+		{"xml:mixed-content-decode", "<r><p>Hello <b>world</b>!</p></r>\n", `{"r":{"p":{"+content":["Hello","!"],"b":"world"}}}`, []string{"-p=xml", "-o=json", "-I0", "."}, nil},
+	} {
+		p := runProc(extraDir, []byte(ec.stdin), ec.args...)
+		if ec.args2 != nil && !p.Hang && p.Code == 0 {
+			p = runProc(extraDir, []byte(p.Stdout), ec.args2...)
+		}
+		got := strings.TrimSpace(p.Stdout)
+		if p.Hang || p.Code != 0 || got != ec.want {
+			rc.Report("extra:"+ec.name, fmt.Sprintf("yq %s on %q prints %q (exit %d, %s); the text denotes %s", strings.Join(ec.args, " "), ec.stdin, p.Stdout, p.Code, firstLine(p.Stderr), ec.want),
+				M{"machine": "Codecs", "concrete": M{"argv": append([]string{"yq"}, ec.args...), "stdin": ec.stdin}, "expected": ec.want, "observed": p.Stdout})
+		}
+	}
 	rc.Set("states", res.Distinct+tv.Distinct)
 	rc.Set("transitions", res.Generated+tv.Generated)
 	rc.Set("traces_validated_against_impl", len(runs))
